@@ -42,19 +42,23 @@ EquivValPrograms == { Set(1, 1), Set(1, 2), Cas(1, 1, 1) }
 \* the smallest setting in which a change can be both in a subscriber's snapshot and delivered to it
 AttackLossyPrograms == { IncUp(1, 1), Add(1, 2), Del(1) }
 AbsentStore == { [i \in {1} |-> Absent] }
-KindsUo == { [uo |-> TRUE, lossy |-> FALSE, masked |-> FALSE, inc |-> FALSE], [uo |-> FALSE, lossy |-> FALSE, masked |-> FALSE, inc |-> FALSE] }
+KindsUo == { [uo |-> TRUE, lossy |-> FALSE, masked |-> FALSE, inc |-> FALSE, pid |-> FALSE], [uo |-> FALSE, lossy |-> FALSE, masked |-> FALSE, inc |-> FALSE, pid |-> FALSE] }
 GcPrograms == { Set(1, 1), IncUp(1, 1), Upsert(1, 2) }
-KindLossySeed == { [uo |-> FALSE, lossy |-> TRUE, masked |-> FALSE, inc |-> FALSE] }
+KindLossySeed == { [uo |-> FALSE, lossy |-> TRUE, masked |-> FALSE, inc |-> FALSE, pid |-> FALSE] }
 \* two subscribers of which one has a read mask (what it is handed is a projection made for it alone)
-KindsMask == { [uo |-> FALSE, lossy |-> FALSE, masked |-> TRUE, inc |-> FALSE], [uo |-> FALSE, lossy |-> FALSE, masked |-> FALSE, inc |-> FALSE],
-               [uo |-> TRUE, lossy |-> FALSE, masked |-> TRUE, inc |-> FALSE] }
+KindsMask == { [uo |-> FALSE, lossy |-> FALSE, masked |-> TRUE, inc |-> FALSE, pid |-> FALSE], [uo |-> FALSE, lossy |-> FALSE, masked |-> FALSE, inc |-> FALSE, pid |-> FALSE],
+               [uo |-> TRUE, lossy |-> FALSE, masked |-> TRUE, inc |-> FALSE, pid |-> FALSE] }
 \* two subscribers of which one may carry an include predicate ("the value is odd")
-KindsInc == { [uo |-> FALSE, lossy |-> FALSE, masked |-> FALSE, inc |-> TRUE], [uo |-> FALSE, lossy |-> FALSE, masked |-> FALSE, inc |-> FALSE],
-              [uo |-> TRUE, lossy |-> FALSE, masked |-> FALSE, inc |-> TRUE] }
+KindsInc == { [uo |-> FALSE, lossy |-> FALSE, masked |-> FALSE, inc |-> TRUE, pid |-> FALSE], [uo |-> FALSE, lossy |-> FALSE, masked |-> FALSE, inc |-> FALSE, pid |-> FALSE],
+              [uo |-> TRUE, lossy |-> FALSE, masked |-> FALSE, inc |-> TRUE, pid |-> FALSE] }
 IncStores == { [i \in {1} |-> Absent], [i \in {1} |-> 1], [i \in {1} |-> 2] }
 IncPrograms == { Set(1, 1), Set(1, 2), Upsert(1, 3), IncUp(1, 1), Del(1) }
-Kinds == { [uo |-> FALSE, lossy |-> FALSE, masked |-> FALSE, inc |-> FALSE], [uo |-> TRUE, lossy |-> FALSE, masked |-> FALSE, inc |-> FALSE] }
-KindsLossy == { [uo |-> FALSE, lossy |-> TRUE, masked |-> FALSE, inc |-> FALSE], [uo |-> TRUE, lossy |-> TRUE, masked |-> FALSE, inc |-> FALSE], [uo |-> FALSE, lossy |-> FALSE, masked |-> FALSE, inc |-> FALSE] }
+\* single-item subscriptions (Collection.PullID) on the one-id collection, with programs that never remove the
+\* item: there they are the plain subscription of the model (the harness opens them with PullID)
+KindsPid == { [uo |-> FALSE, lossy |-> FALSE, masked |-> FALSE, inc |-> FALSE, pid |-> TRUE],
+              [uo |-> TRUE, lossy |-> FALSE, masked |-> FALSE, inc |-> FALSE, pid |-> TRUE] }
+Kinds == { [uo |-> FALSE, lossy |-> FALSE, masked |-> FALSE, inc |-> FALSE, pid |-> FALSE], [uo |-> TRUE, lossy |-> FALSE, masked |-> FALSE, inc |-> FALSE, pid |-> FALSE] }
+KindsLossy == { [uo |-> FALSE, lossy |-> TRUE, masked |-> FALSE, inc |-> FALSE, pid |-> FALSE], [uo |-> TRUE, lossy |-> TRUE, masked |-> FALSE, inc |-> FALSE, pid |-> FALSE], [uo |-> FALSE, lossy |-> FALSE, masked |-> FALSE, inc |-> FALSE, pid |-> FALSE] }
 
 W1 == {1}  W2 == {1, 2}  W3 == {1, 2, 3}
 S0 == {}   S1 == {1}     S2 == {1, 2}
